@@ -151,6 +151,9 @@ func genC19(c *Ctx) {
 			if pat == "error-reake" {
 				pol |= polErrStart
 			}
+			if pat == "bad-fragment-flood" {
+				pol = polV3
+			}
 			pols := []int{pol, pol}
 			s := newSys(pols, c.R.U64())
 			if !s.Handshake(1, 2) {
